@@ -76,6 +76,11 @@ class TD(typing.TypedDict):
 class TDPartial(typing.TypedDict, total=False):
     a: int
 
+@typing.final
+class SealedCls:
+    """marked with the @typing.final DECORATOR (which sets __final__): not the Final[...] qualifier"""
+    a: int = 0
+
 import typing_extensions
 class TDExt(typing_extensions.TypedDict):
     """declared through the backport: a different implementation (own metaclass) on Python < 3.13"""
@@ -211,7 +216,7 @@ class WithProps:
         return 2
 '''
 
-USER_CLASSES = ["DC", "FrozenDC", "DCSub", "NT", "NTc", "NTSub", "TD", "TDPartial", "TDExt", "Color", "IntE", "StrE", "Flg", "Plain",
+USER_CLASSES = ["DC", "FrozenDC", "DCSub", "NT", "NTc", "NTSub", "TD", "TDPartial", "TDExt", "SealedCls", "Color", "IntE", "StrE", "Flg", "Plain",
                 "PlainSub", "Slotted", "Gen", "GenSub", "MyList", "MyDict", "MySet", "MyTuple", "MyStr", "MyBytes", "MyInt",
                 "MyFloat", "MyDate", "MyDateTime", "MyTime", "MyTimeDelta", "MyDecimal", "MyFraction", "MyUUID", "MyPath",
                 "MyMapping", "MySeq", "MyIter", "AbstractUser", "CallableCls", "WithProps"]
